@@ -183,3 +183,10 @@ Proof.
     split; [repeat constructor; intros []|]. intros s [].
   - intros x. unfold abs. cbn. destruct x; cbn; intros H; discriminate H.
 Qed.
+
+(* whatever an abandoned generator did, a later complete get_references yields exactly the references the block had before *)
+Theorem C20_refcache_complete_after_abandoned : forall l c b c',
+  Inv c -> (forall s, In s l -> In s (map fst (stab c))) ->
+  get_references_abandoned c b l = Some c' ->
+  forall x, In x (fst (get_references c' b)) <-> In x (map fst (stab c)) /\ fst (abs c x) = Some b.
+Proof. exact abandoned_then_complete. Qed.
